@@ -10,7 +10,7 @@ used=[]
 for f in sorted(glob.glob(f'/verif/seeded/S_{p}*/meta.json')):
     m=json.load(open(f)); used.append("- "+m.get("change",""))
 for f in sorted(glob.glob(f'/verif/mutants/{p}_*/MUTANTS.md')):
-    used.append("- (earlier batch) see: "+open(f).read()[:3000])
+    used.append("- (earlier batch) see: "+open(f).read()[:9000])
 open(wt+'/_seed/USED.txt','w').write("Changes already used for this property (do not repeat them or close variants):\n"+"\n".join(used)+"\n")
 PY
   sed "s#@@e#${p}${tag}#g; s#@@#${p}#g" /verif/eav/mutants_prompt.txt > /tmp/wt_${p}${tag}/_seed/TASK.txt
